@@ -368,6 +368,40 @@ func checkPopsAfterExit(r *Run, fd *ast.FuncDecl, g *cfg.CFG, visitorCall func(a
 				}
 			}
 			back(b, i)
+			// the consume flag is cleared between the Exit callback and the pop: Exit may call Consume(), and a flag that
+			// survives the pop is read by the parent's `else if visitor.WasConsumed()` and makes it skip its remaining children
+			cleared := true
+			seen2 := map[*cfg.Block]bool{}
+			var back2 func(bb *cfg.Block, upto int)
+			back2 = func(bb *cfg.Block, upto int) {
+				if !cleared {
+					return
+				}
+				for j := upto - 1; j >= 0; j-- {
+					if nm, c := visitorCall(bb.Nodes[j]); c != nil {
+						if nm == "WasConsumed" {
+							return
+						}
+						if nm == "Exit" || nm == "Enter" || nm == "Visit" {
+							cleared = false
+							return
+						}
+					}
+				}
+				if seen2[bb] {
+					return
+				}
+				seen2[bb] = true
+				for _, p := range preds[bb] {
+					back2(p, len(p.Nodes))
+				}
+			}
+			back2(b, i)
+			if cleared {
+				r.Pass("C11-generic-nesting", "Generic:pop#"+itoa(npops)+":consume-cleared", n.Pos(), "visitor.WasConsumed() is read between the last callback and this pop, so a consume request made in Exit cannot leak to the parent")
+			} else {
+				r.Fail("C11-generic-nesting", "Generic:pop#"+itoa(npops)+":consume-cleared", n.Pos(), "a path reaches this pop from a visitor callback without reading visitor.WasConsumed(): a Consume() made in that callback survives the pop, the parent cursor sees it in its own WasConsumed() test, is exited at once and its remaining children are never visited")
+			}
 			construct := "Generic:pop#" + itoa(npops)
 			if ok {
 				r.Pass("C11-generic-nesting", construct, n.Pos(), "every path to this pop passes visitor.Exit of the popped node")
